@@ -44,7 +44,10 @@ HAND = [
     ("$[?@.a contains 1]", "nest2", {}), ("$[?'a' in @]", "nest2", {}), ("$[?@.a == nil || @.a == None]", "objarr", {"leaf": "nbi"}),
     ("a.b", "nest1", {}), ("$[a, b]", "obj2", {}), ("$.a[0:2:1]", "nest1", {}), ("$[0::-1]", "arr", {}), ("$[:0:-1]", "arr", {}), ("$[0:0]", "arr", {}), ("$[::0]", "arr", {}),
     ("$[?(!(@.a == 1)) == true]", "objarr", {}), ("$[?!((@.a == 1) == (@.b == 2))]", "objarr", {"leaf": "int"}), ("$[?!((!@.a) == true)]", "objarr", {}),
-    ("$[?@.a == 1.0e16]", "objarr", {"strs": [10**16, 1e16, 1, "1e16"]}), ("$.items[?^[0].a == @.b]", "objarr", {}), ("$.a[::-1]", "nest1", {}), ("$.a[:1]", "nest1", {}),
+    ("$[?@.a == 1.0e16]", "objarr", {"strs": [10**16, 1e16, 1, "1e16"]}), ("$[?@.a == 1.0e20]", "objarr", {"strs": [10**20, 1e20, 100.0, 1e2]}),
+    ("$[?@.a == 2.5e30]", "objarr", {"strs": [2.5e30, 2.5e3, 2500]}), ("$[?@.a == 1e-10]", "objarr", {"strs": [1e-10, 0.1, 1e-1]}),
+    ("$[?@.a == 1.0e100 || @.a in [1.0e20, 1e-10]]", "objarr", {"strs": [1e100, 10.0, 1e20, 1e-10, 100.0]}), ("$[?@.a =~ /k/ai]", "objarr", {"strs": ["k", "K", "\u212a"]}),
+    ("$[?@.a =~ /\\w+/a]", "objarr", {"strs": ["ab", "é", "aé"]}), ("$.items[?^[0].a == @.b]", "objarr", {}), ("$.a[::-1]", "nest1", {}), ("$.a[:1]", "nest1", {}),
     ("$..[?@.a == 1].b", "deep", {}), ("$[?@.a][?@ == 1]", "nest2", {}), ("$[?@.xs[?@.a == $.k]]", "objarr", {}),
     ("$[?length(@.a) == 1 && count(@.*) > 1]", "objarr", {}), ("$[?value(@..a) == 1]", "nest2", {}),
     ("$[?typeof(@.a) == 'number']", "objarr", {}), ("$[?isinstance(@.a, 'string')]", "objarr", {}),
